@@ -134,6 +134,7 @@ impl Scheduler for SimScheduler {
             None => candidates[self.rng.below(candidates.len())],
         };
         let cid = usize::from(chosen);
+        clock::set_chosen_at_quiescence(Some(chosen) == clock_task && quiescent_jump);
         if Some(chosen) == clock_task {
             if quiescent_jump {
                 clock::note_quiescence_jump();
